@@ -23,6 +23,7 @@ var vrfEntries = map[string]func(){
 	"VrfC12Add":    VrfC12Add,
 	"VrfC12PinLs":  VrfC12PinLs,
 	"VrfC12RepoStat": VrfC12RepoStat,
+	"VrfC12Router":   VrfC12Router,
 }
 
 type vrfWriter struct {
@@ -514,4 +515,77 @@ func VrfC12RepoStat() {
 	}
 	vrf_assert(asked == n, "C12.repostat.every-peer-asked-once")
 	vrf_reach("C12.repostat.end")
+}
+
+// ---- the router: which requests are hijacked, which are relayed
+
+var vrfRelayed []*http.Request
+
+// (engine only) stands for the reverse proxy to the IPFS daemon
+func vrfDaemonServe(w http.ResponseWriter, r *http.Request) {
+	vrfRelayed = append(vrfRelayed, r)
+	w.WriteHeader(200)
+}
+
+// VrfC12Router: the proxy built by the real New(): every request whose method
+// is POST, GET or PUT and whose path is one of the hijacked API paths is
+// answered by the matching cluster operation and never reaches the daemon;
+// every other request - other methods, other paths - is handed to the daemon
+// relay untouched and performs no cluster operation.
+func VrfC12Router() {
+	cfg := &Config{}
+	cfg.Default()
+	p, err := New(cfg)
+	vrf_assert(err == nil && p != nil, "C12.router.constructed")
+	if p == nil {
+		return
+	}
+	s := &vrfSvc{pinset: []cid.Cid{vrfTestCid(0)}, peers: []peer.ID{}, stats: map[peer.ID]*api.IPFSRepoStat{}}
+	vrfTheSvc = s
+	srv := rpc.NewServer(nil, "vrf")
+	srv.RegisterName("Cluster", &vrfClusterAPI{s})
+	srv.RegisterName("IPFSConnector", &vrfIPFSAPI{s})
+	srv.RegisterName("Consensus", &vrfConsensusAPI{s})
+	p.rpcClient = rpc.NewClientWithServer(nil, "vrf", srv)
+	vrfRelayed = nil
+
+	c0 := vrfTestCid(0).String()
+	type route struct {
+		path string
+		op   string // the cluster operation a hijacked request performs
+	}
+	routes := []route{
+		{"/api/v0/pin/add", "PinPath"}, {"/api/v0/pin/add/" + c0, "PinPath"},
+		{"/api/v0/pin/rm", "UnpinPath"}, {"/api/v0/pin/rm/" + c0, "UnpinPath"},
+		{"/api/v0/pin/ls", "PinGet"}, {"/api/v0/pin/ls/" + c0, "PinGet"},
+		{"/api/v0/pin/update", ""}, {"/api/v0/repo/stat", "Peers"},
+		// not hijacked
+		{"/api/v0/version", "-"}, {"/api/v0/pin/verify", "-"}, {"/api/v0/block/put", "-"},
+		{"/api/v0/pin/add/" + c0 + "/more", "-"}, {"/api/v1/pin/add", "-"}, {"/", "-"}, {"/pin/add", "-"},
+	}
+	rt := routes[vrf_choice("path", len(routes))]
+	method := []string{"POST", "GET", "PUT", "OPTIONS", "HEAD", "DELETE"}[vrf_choice("method", 6)]
+	q := url.Values{}
+	q.Set("arg", c0)
+	r := &http.Request{Method: method, URL: &url.URL{Path: rt.path, RawQuery: q.Encode()}, Header: http.Header{}}
+	w := &vrfWriter{hdr: http.Header{}}
+	p.server.Handler.ServeHTTP(w, r)
+
+	hijacked := rt.op != "-" && (method == "POST" || method == "GET" || method == "PUT")
+	vrf_note_bool("hijacked", hijacked)
+	if !hijacked {
+		vrf_assert(len(vrfRelayed) == 1 && vrfRelayed[0] == r, "C12.router.relayed-untouched")
+		vrf_assert(len(s.calls) == 0, "C12.router.relayed-no-cluster-op")
+		vrf_reach("C12.router.end-relayed")
+		return
+	}
+	vrf_assert(len(vrfRelayed) == 0, "C12.router.hijacked-never-reaches-daemon")
+	if rt.op != "" {
+		first := ""
+		if len(s.calls) > 0 {
+			first = s.calls[0].method
+		}
+		vrf_assert(first == rt.op, "C12.router.route-performs-its-operation")
+	}
+	vrf_reach("C12.router.end-hijacked")
 }
